@@ -378,6 +378,91 @@ func c12SelfClose(id string, actor bool, capacity, blocked int, seed int64) core
 	}}
 }
 
+// an Ask is a message like any other: one whose asker gave up (AskOnceWithTimeout timed out) while it was still queued
+// behind a busy actor has been accepted by Send and is processed exactly once, in order, when the actor gets to it
+func c12TimedOutAsk(id string, capacity int, seed int64) core.Scenario {
+	return core.Scenario{ID: id, Class: "mailbox.ask-as-message", Run: func(c *core.Ctx) {
+		rep := map[string]any{"scenario": id, "channel_capacity": capacity}
+		c.Eval(1)
+		c.Distinct(id)
+		type tAsk = fpgo.AskDef[interface{}, int]
+		var mu sync.Mutex
+		var log []string
+		gate := make(chan struct{})
+		busy := make(chan struct{}, 1)
+		tailDone := make(chan struct{})
+		eff := func(self *fpgo.ActorDef[interface{}], m interface{}) {
+			switch x := m.(type) {
+			case string:
+				mu.Lock()
+				log = append(log, x)
+				mu.Unlock()
+				if x == "block" {
+					busy <- struct{}{}
+					<-gate
+				}
+				if x == "tail" {
+					close(tailDone)
+				}
+			case *tAsk:
+				mu.Lock()
+				log = append(log, fmt.Sprintf("ask-%v", x.Message))
+				mu.Unlock()
+				func() {
+					defer func() { recover() }() // late replies are C13's subject
+					x.Reply(1)
+				}()
+			}
+		}
+		var a *fpgo.ActorDef[interface{}]
+		if capacity == 0 {
+			a = fpgo.Actor.New(eff)
+		} else {
+			a = fpgo.Actor.NewByOptions(eff, make(chan interface{}, capacity), map[string]interface{}{})
+		}
+		a.Send("block")
+		<-busy
+		asked := make(chan error, 1)
+		go func() {
+			_, err := fpgo.AskNewGenerics[interface{}, int]("q").AskOnceWithTimeout(a, time.Duration(1+seed%3)*time.Millisecond)
+			asked <- err
+		}()
+		var askErr error
+		select {
+		case askErr = <-asked: // capacity >= 1: the ask was queued and its asker gave up
+		case <-time.After(time.Duration(6+seed%3) * time.Millisecond): // capacity 0: the asker is still blocked in Send
+		}
+		go a.Send("tail") // behind the ask (or racing it on an unbuffered mailbox)
+		time.Sleep(500 * time.Microsecond)
+		close(gate)
+		if !c12Await(c, tailDone, "Actor:timed-out-ask", rep) {
+			return
+		}
+		if askErr == nil {
+			select {
+			case askErr = <-asked:
+			case <-time.After(20 * time.Second):
+				c.Inconclusive("asker never returned in " + id)
+				return
+			}
+		}
+		time.Sleep(time.Millisecond)
+		mu.Lock()
+		got := append([]string(nil), log...)
+		mu.Unlock()
+		n := 0
+		for _, l := range got {
+			if l == "ask-q" {
+				n++
+			}
+		}
+		if n != 1 {
+			c.Violationf("Actor:ask-message-not-processed-once", rep, "an Ask sent to a busy actor (mailbox capacity %d) whose asker timed out (%v) while it was queued was processed %d times; the effect saw %v", capacity, askErr, n, got)
+		}
+		a.Close()
+	}}
+}
+
 func nextTick() {
 	t := time.Now()
 	for !time.Now().After(t) {
@@ -512,6 +597,9 @@ func c12SpawnScenario(id string, depth, fan int, seed int64) core.Scenario {
 
 func c12Scenarios(c *core.Ctx, race bool) []core.Scenario {
 	var out []core.Scenario
+	for i := 0; i < c.Pick(8, 40); i++ {
+		out = append(out, c12TimedOutAsk(fmt.Sprintf("timed-out-ask-cap%d-%d-race%v", i%4, i, race), i%4, c.Seed+int64(i)))
+	}
 	for capacity := 0; capacity <= 3; capacity++ {
 		for blocked := 0; blocked <= 3; blocked++ {
 			for _, actor := range []bool{false, true} {
@@ -555,7 +643,7 @@ func init() {
 		Meta: func(c *core.Ctx) core.Meta {
 			return core.Meta{
 				Level:       "exploration",
-				Rule:        "1..16 concurrent senders x 1..2000 messages (thorough: long runs of 60000) x channel capacity 0..4 (New / NewByCh / NewByOptions) against one Handler and one Actor per scenario; every message carries (sender, seq); the effect is the monitor: normal build = atomic busy counter (must read 1 on entry) + PRNG yields inside the effect, race build = PLAIN counter and PLAIN log append so that the Go race detector (deciding) reports any two effects not ordered by happens-before; after a drain marker the log must hold every message exactly once with each sender's subsequence increasing; self == actor; work submitted after Close returned never runs; Close() called by the running work itself with 0..3 accepted items buffered and 0..3 senders blocked on the full mailbox (Close and the senders must return, accepted items run once in order); spawn trees of depth 1..3 x fan 1..3 for GetParent/GetChild, mailbox independence and spawning from a closed parent. distinct_nontrivial = distinct scenarios",
+				Rule:        "1..16 concurrent senders x 1..2000 messages (thorough: long runs of 60000) x channel capacity 0..4 (New / NewByCh / NewByOptions) against one Handler and one Actor per scenario; every message carries (sender, seq); the effect is the monitor: normal build = atomic busy counter (must read 1 on entry) + PRNG yields inside the effect, race build = PLAIN counter and PLAIN log append so that the Go race detector (deciding) reports any two effects not ordered by happens-before; after a drain marker the log must hold every message exactly once with each sender's subsequence increasing; self == actor; work submitted after Close returned never runs; Close() called by the running work itself with 0..3 accepted items buffered and 0..3 senders blocked on the full mailbox (Close and the senders must return, accepted items run once in order); an Ask whose asker timed out while it was queued behind a busy actor (capacity 0..3) is still processed exactly once; spawn trees of depth 1..3 x fan 1..3 for GetParent/GetChild, mailbox independence and spawning from a closed parent. distinct_nontrivial = distinct scenarios",
 				Assumptions: []string{"Close is called after the drain or by the running work itself (closing concurrently with arbitrary senders is property C15)", "actor ids are time stamps; the harness spaces Spawn calls by one clock tick"},
 			}
 		},
